@@ -45,15 +45,21 @@ macro_rules! program {
 }
 
 pub mod c01;
+pub mod c02;
 pub mod c08;
 pub mod c09;
 pub mod c10;
+pub mod c14;
+pub mod c15;
 
 pub fn all() -> Vec<Prog> {
     let mut v = Vec::new();
     v.extend(c01::all());
+    v.extend(c02::all());
     v.extend(c08::all());
     v.extend(c09::all());
     v.extend(c10::all());
+    v.extend(c14::all());
+    v.extend(c15::all());
     v
 }
